@@ -82,6 +82,10 @@ class Feeder:
             return self._ring[i] if kind == "reused1d" else self._ring[i:i + 1]
         if kind == "scalar":
             return _pyrow(x)[0]          # a Python int when the value is whole
+        if kind in ("bool", "npbool", "boolarray"):      # a 0/1 indicator handed over as the comparison it came from
+            if all(v in (0, 1) for v in x):
+                return bool(x[0]) if kind == "bool" else (np.bool_(x[0]) if kind == "npbool" else np.array([[bool(v) for v in x]]))
+            return _pyrow(x)[0] if d == 1 else np.array([x], dtype=float)
         raise KeyError(kind)
 
     # ---- a batch for a batch detector ---------------------------------------------------------------
